@@ -415,6 +415,66 @@ def escalate_for(pid, changed):
         anchors = set()
     return bool(set(changed) & (anchors | HELPER_FILES))
 
+def signature_table():
+    """{function name: {parameter: source text of its default}} for every top-level def (and class method, as Class.method)
+    of teneva/*.py in the working tree"""
+    import glob
+    out = {}
+    for f in sorted(glob.glob(os.path.join(REPO, 'teneva', '*.py'))):
+        try:
+            tree = ast.parse(open(f).read())
+        except Exception:
+            continue
+        defs = [(n.name, n) for n in tree.body if isinstance(n, ast.FunctionDef)]
+        for c in tree.body:
+            if isinstance(c, ast.ClassDef):
+                defs += [(c.name + '.' + n.name, n) for n in c.body if isinstance(n, ast.FunctionDef)]
+        for name, n in defs:
+            a = n.args
+            pos = a.posonlyargs + a.args
+            d = {}
+            for arg, dv in zip(pos[len(pos) - len(a.defaults):], a.defaults):
+                d[arg.arg] = ast.unparse(dv)
+            for arg, dv in zip(a.kwonlyargs, a.kw_defaults):
+                if dv is not None:
+                    d[arg.arg] = ast.unparse(dv)
+            out[name] = dict(params=[x.arg for x in pos] + [x.arg for x in a.kwonlyargs], defaults=d)
+    return out
+
+
+def signature_changed(pid):
+    """documented defaults / parameter lists of the exported functions property pid covers (harness/forms_table.py: props)
+    that differ from harness/signature_pins.json.  The models are instantiated with the documented defaults, so a changed
+    default breaks the tie between model and code (reported like any broken correspondence: the search for a failing input
+    decides what is printed).  Parameters that only control printing are ignored; C09 / C10 (aliasing, determinism) do not
+    depend on default values."""
+    p = os.path.join(VERIF, 'harness', 'signature_pins.json')
+    if not os.path.exists(p) or pid in ('C09', 'C10'):
+        return []
+    pins, cur = json.load(open(p)), signature_table()
+    try:
+        from harness import forms_table
+        funcs = {n.split('.')[0] for n, e in forms_table.TABLE.items() if pid in (getattr(e, 'props', None) or [])}
+    except Exception:
+        return []
+    diffs = []
+    for fn in sorted(funcs):
+        names = [k for k in pins if k == fn or k.startswith(fn + '.')]
+        for k in names:
+            a, b = pins.get(k), cur.get(k)
+            if b is None:
+                diffs.append(f'{k}: function no longer defined')
+                continue
+            if a['params'] != b['params']:
+                diffs.append(f"{k}: parameters {a['params']} -> {b['params']}")
+            for q in sorted(set(a['defaults']) | set(b['defaults'])):
+                if q in ('log',):
+                    continue
+                if a['defaults'].get(q) != b['defaults'].get(q):
+                    diffs.append(f"{k}: default of {q} {a['defaults'].get(q)} -> {b['defaults'].get(q)}")
+    return diffs
+
+
 # ----------------------------------------------------------------------------
 # known findings, evidence, verdict
 # ----------------------------------------------------------------------------
